@@ -14,6 +14,8 @@ From TV Require Import Model.Common Model.Leaf Gen.GridTracksGen Model.GridTrack
 From TV Require Import Model.FiltersBase Gen.FiltersGen Model.ItemFilters Model.GridAlgBase Model.GridAlg Model.GridAlgTotal.
 From TV Require Import Model.PlacementBase Gen.PlacementGen Model.Placement Proofs.PlacementTables Proofs.PlacementMatrix
   Proofs.PlacementProofs Proofs.PlacementTotal Proofs.FlexAlgStruct Proofs.GridAlgStruct.
+From TV Require Import Model.GridNoPanicExample.
+From TV Require Num.QNum.
 Import ListNotations.
 Close Scope Z_scope.
 Close Scope N_scope.
@@ -287,3 +289,25 @@ Section NoPanic.
     forall inp, grid_alg_total st children inp = grid_alg st children inp.
   Proof. intros Hd inp. apply grid_alg_total_on_domain. apply grid_domain_of_static. exact Hd. Qed.
 End NoPanic.
+
+(* ================================================================================================ non-vacuity *)
+Section Examples.
+  (* the example container is in the static domain, for every number structure (hence in `grid_domain` for every input) *)
+  Lemma example_in_domain_static {T : Type} `{Num T} : grid_domain_static (T := T) ex_container ex_children.
+  Proof.
+    unfold grid_domain_static, template_fixed. split; [split; [reflexivity|vm_compute; discriminate]|].
+    split; [split; [reflexivity|vm_compute; discriminate]|]. split; [cbn; lia|].
+    unfold ex_children, child_ok, ln_ok. repeat constructor; cbn; lia.
+  Qed.
+
+  Lemma example_in_domain {T : Type} `{Num T} : forall inp, grid_domain (T := T) ex_container ex_children inp.
+  Proof. intros inp. apply grid_domain_of_static. apply example_in_domain_static. Qed.
+
+  (* computed, over the exact rationals: the predicate evaluates to true on the example ... *)
+  Lemma example_computed : grid_no_panic (T := QNum.XQ) ex_container ex_children ex_input = true.
+  Proof. vm_compute. reflexivity. Qed.
+
+  (* ... and it is not trivially true: one more child with grid-column: 32767 / span 2 (outside the domain) makes the estimate overflow *)
+  Lemma example_outside_domain : grid_no_panic (T := QNum.XQ) ex_container (ex_children ++ [ex_far_child]) ex_input = false.
+  Proof. vm_compute. reflexivity. Qed.
+End Examples.
